@@ -1,12 +1,18 @@
 #!/venv/bin/python
 """dev helper: run checks on a scratch copy of /repo with one textual edit.
-usage: trymut.py PROP[,PROP..] relpath old new [count]"""
+usage: trymut.py [--patch file.diff] PROP[,PROP..] relpath old new"""
 import os, shutil, subprocess, sys, tempfile
+patch = None
+if sys.argv[1] == '--patch':
+    patch = os.path.abspath(sys.argv[2])
+    del sys.argv[1:3]
 props, rel, old, new = sys.argv[1:5]
 d = tempfile.mkdtemp(prefix='mut_', dir='/tmp')
 try:
     shutil.copytree('/repo/pyModelChecking', os.path.join(d, 'pyModelChecking'),
                     ignore=shutil.ignore_patterns('__pycache__'))
+    if patch:
+        subprocess.run(['patch', '-p1', '-s', '-i', patch], cwd=d, check=True)
     p = os.path.join(d, 'pyModelChecking', rel)
     s = open(p).read()
     if old not in s:
